@@ -38,12 +38,17 @@ OID = [1, 3, 6, 1, 2, 1, 1, 1, 0]
 USM_WRONG_DIGEST = [1, 3, 6, 1, 6, 3, 15, 1, 1, 5, 0]
 
 
-def base_exchange(level, method):
-    """an authentic request / response pair for user `usr` at the given level"""
-    agent = RA.Agent(db=[(tuple(OID), ["str", "736563726574"])])
+def base_exchange(level, method, target=None):
+    """an authentic request / response pair for user `usr` at the given level; `target`: the
+    object asked for (one of the agent's own usmStats counters is an ordinary object too)"""
+    target = target or OID
+    agent = RA.Agent(db=sorted([(tuple(OID), ["str", "736563726574"]), (tuple(USM_WRONG_DIGEST), ["counter32", 7])]))
     lvl = {"auth": "auth" if method == "md5" else "auth-sha1", "authpriv": "authpriv" if method == "md5" else "authpriv-sha1", "noauth": "noauth"}[level]
     client = W.make_client(agent, "v3", lvl)
-    W.run(client.get(RA.OID(OID)))
+    try:
+        W.run(client.get(RA.OID(target)))
+    except Exception:  # noqa: BLE001 - what the client makes of the response is judged by the suites
+        pass
     req, resp = agent.raw_log[-1]
     creds = client.config.credentials
     user = creds.username.encode()
@@ -108,13 +113,14 @@ def authentic(dg, auth, creds_level_flags):
 
 
 def unit(ctx, res, reqs, impls, hangs):
-    for level, method in (("auth", "md5"), ("auth", "sha1"), ("authpriv", "md5"), ("authpriv", "sha1"), ("noauth", "md5")):
-        agent, creds, user, auth, priv, req, resp = base_exchange(level, method)
+    for level, method, target in [(lv, me, tg) for lv, me in (("auth", "md5"), ("auth", "sha1"), ("authpriv", "md5"), ("authpriv", "sha1"), ("noauth", "md5")) for tg in (OID, USM_WRONG_DIGEST)]:
+        agent, creds, user, auth, priv, req, resp = base_exchange(level, method, target)
         level_flags = (1 if auth else 0) | (2 if priv else 0)
         want_ok = UL.canon_real_incoming(UL.real_incoming(resp, creds))
         for label, dg in forgeries(ctx.rng, agent, user, auth, priv, resp):
             got = UL.canon_real_incoming(UL.real_incoming(dg, creds))
-            case = {"level": level, "method": method, "forgery": label, "datagram": dg.hex()}
+            case = {"level": level, "method": method, "target": target, "forgery": label, "datagram": dg.hex()}
+            res.count("target:" + ("usmStats" if target is USM_WRONG_DIGEST else "sysDescr"))
             res.count(f"forgery:{label.split('=')[0].split('+')[0]}")
             res.count(f"level:{level}/{method}")
             res.count("outcome:" + got[0])
@@ -199,7 +205,7 @@ def replay(ctx, payload):
     if "datagram" not in c:
         print("mitm case: re-run the check with the recorded seed")
         return 2
-    agent, creds, user, auth, priv, req, resp = base_exchange(c["level"], c["method"])
+    agent, creds, user, auth, priv, req, resp = base_exchange(c["level"], c["method"], c.get("target"))
     got = UL.real_incoming(bytes.fromhex(c["datagram"]), creds)
     ok = authentic(bytes.fromhex(c["datagram"]), auth, (1 if auth else 0) | (2 if priv else 0))
     print("outcome", got, "authentic:", ok)
